@@ -1,5 +1,5 @@
 /* wrapper TU: the real lib/efuns/call_out.c of the current tree + read access to its statics */
-#include "/repo/lib/efuns/call_out.c"
+#include "lib/efuns/call_out.c"   /* resolved through -I <repo> */
 
 long vw_call_out_time (void) { return (long) call_out_time; }
 int vw_co_pending (void) {
